@@ -54,6 +54,7 @@ func runC16(c *Ctx) error {
 	var hists []*histRef
 	for _, j := range jobs {
 		pool := model.InputPool(inRng, j.CFG, 120, 3)
+		pool = append(pool, model.LongSentences(inRng, j.CFG, 3, 110)...)
 		for h := 0; h < nH; h++ {
 			n := 2 + inRng.Intn(5)
 			hr := &histRef{job: j}
